@@ -1404,6 +1404,10 @@ class GenFunctions(object):
             # The buffer function is intended to be called by Fortran.
             # No Fortran, no need for buffer function.
             return
+        if node.wrap.fortran is False:
+            # Not wrapped for Fortran, for example a function template
+            # (only its instantiations are wrapped).
+            return
 
         ast = node.ast
         result_typemap = ast.typemap
